@@ -306,7 +306,7 @@ def size(self):
 
 spec('Store', '_do_put', what='accept iff fewer than capacity items; insert at the tail')('''
 def _do_put(self, event):
-    if len(self.items) < self._capacity:
+    if len(self.items) + 1 <= self._capacity:
         self.items.append(event.item)
         event.succeed()
         return True
@@ -330,7 +330,7 @@ def __lt__(self, other):
 
 spec('PriorityStore', '_do_put', what='accept iff fewer than capacity items; heap insert')('''
 def _do_put(self, event):
-    if len(self.items) < self._capacity:
+    if len(self.items) + 1 <= self._capacity:
         heappush(self.items, event.item)
         event.succeed()
         return True
@@ -347,11 +347,11 @@ def _do_get(self, event):
         return False
 ''')
 
-spec('FilterStore', '_do_get', what='first item in insertion order that satisfies the filter, at most one, scan never blocked')('''
+spec('FilterStore', '_do_get', what='first item in insertion order that satisfies the filter is removed by position (not by equality), at most one, scan never blocked')('''
 def _do_get(self, event):
-    for item in self.items:
+    for i, item in enumerate(self.items):
         if event.filter(item):
-            self.items.remove(item)
+            del self.items[i]
             event.succeed(item)
             break
     return True
@@ -362,11 +362,11 @@ def _do_get(self, event):
 # ends (tail insert / head removal / heap order) matter; the cell "exactly full" is left open
 spec('Store', '_do_put@unbounded', what='unbounded use: accepted items are inserted at the tail')('''
 def _do_put(self, event):
-    if len(self.items) < self._capacity:
+    if len(self.items) + 1 <= self._capacity:
         self.items.append(event.item)
         event.succeed()
         return True
-    elif len(self.items) == self._capacity:
+    elif len(self.items) <= self._capacity:
         DONTCARE()
     else:
         return False
@@ -374,11 +374,11 @@ def _do_put(self, event):
 
 spec('PriorityStore', '_do_put@unbounded', what='unbounded use: accepted items are heap-inserted')('''
 def _do_put(self, event):
-    if len(self.items) < self._capacity:
+    if len(self.items) + 1 <= self._capacity:
         heappush(self.items, event.item)
         event.succeed()
         return True
-    elif len(self.items) == self._capacity:
+    elif len(self.items) <= self._capacity:
         DONTCARE()
     else:
         return False
